@@ -648,7 +648,16 @@ func genAmqpConv(r *Rand, tier string, emit func(sx.Sx)) {
 		n := 1 + r.Intn(5)
 		for j := 0; j < n; j++ {
 			ch := 1 + r.Intn(3)
-			switch r.Intn(8) {
+			switch r.Intn(9) {
+			case 8: // content of a method the dissector does not report (basic.return, basic.get-ok), often
+				// right after a reported content on the same channel
+				if r.Chance(60) {
+					sf = append(sf, mf(ch, findMethod(ms, 60, 60)))
+					sf = append(sf, content(ch, r.Bytes(1+r.Intn(20)), 1)...)
+				}
+				m := findMethod(ms, 60, []int{50, 71}[r.Intn(2)])
+				sf = append(sf, mf(ch, m))
+				sf = append(sf, content(ch, r.Bytes(1+r.Intn(30)), 1)...)
 			case 0, 1: // publish with content
 				size := []int{0, 1, 10, 511, 512, 513, 2000}[r.Intn(7)]
 				frames := 1
